@@ -58,8 +58,13 @@ def replay(case):
                                    acs_url=None if scn['url'] == 'absent' else U[scn['url']],
                                    acs_index=None if scn['index'] == 'absent' else scn['index'],
                                    binding=None if scn['pbinding'] == 'absent' else B[scn['pbinding']],
-                                   issue_instant=env.ts(now - 5))
-            req = idp.parse_authn_request(sb.deflate_b64(doc), env.BINDING_REDIRECT)
+                                   issue_instant=env.ts(now - 5),
+                                   sig=sb.signature_template('req1', 'sha256') if scn.get('signed') else '')
+            if scn.get('signed'):
+                doc = sb.sign(doc, sb.NS_SAMLP, 'AuthnRequest', 'req1', 'kSp')
+                req = idp.parse_authn_request(sb.b64(doc), env.BINDING_POST)
+            else:
+                req = idp.parse_authn_request(sb.deflate_b64(doc), env.BINDING_REDIRECT)
         else:
             doc = ('<samlp:LogoutRequest xmlns:samlp="%s" xmlns:saml="%s" ID="lr1" Version="2.0" IssueInstant="%s" Destination="%s">'
                    '<saml:Issuer>%s</saml:Issuer><saml:NameID>subject</saml:NameID></samlp:LogoutRequest>'
@@ -118,7 +123,7 @@ def main():
     chk.cov['rule'] = ('all scenarios of IdPAnswer.tla: request answered just before on the same server (none / sp1 / sp2) x 4 metadata layouts x issuer (known, other known, unknown) x consumer URL '
                       '(absent, registered ones, other SP\'s, case / trailing-slash / query / port near misses, unregistered) x index x '
                       'ProtocolBinding, plus logout requests')
-    chk.assumptions = ['requests are unsigned and delivered over HTTP-Redirect; metadata written from templates']
+    chk.assumptions = ['requests are unsigned and delivered over HTTP-Redirect, or signed by the requester and delivered over HTTP-POST; metadata written from templates']
     return chk.finish()
 
 
